@@ -84,6 +84,7 @@ type BlockedRec struct {
 	Name   string
 	Op     string // plain-recv | ctx-select | chan-select | wait | stall | sleep | start | other
 	Detail string
+	Chans  []string // names of the injector's own channels the thread is parked on
 }
 
 // Result is everything the oracles look at after a run.
@@ -311,12 +312,16 @@ func (s *Sim) describe(t *thread) BlockedRec {
 		b.Detail = "<-" + strings.Join(t.op.names, ",")
 		if cs := s.chans[t.op.chans[0]]; cs != nil && cs.ctx != nil {
 			b.Op = "ctx-recv"
+		} else if cs != nil {
+			b.Chans = append(b.Chans, cs.name)
 		}
 	case opSelect:
 		b.Op = "chan-select"
 		for _, c := range t.op.chans {
 			if cs := s.chans[c]; cs != nil && cs.ctx != nil {
 				b.Op = "ctx-select"
+			} else if cs != nil {
+				b.Chans = append(b.Chans, cs.name)
 			}
 		}
 		b.Detail = "select{" + strings.Join(t.op.names, ",") + "}"
@@ -717,10 +722,26 @@ func (s *Sim) chanOf(c any, name string) (uintptr, *chanState) {
 		s.chans[k] = cs
 		s.keepAlive = append(s.keepAlive, c)
 	}
-	if cs.name == "" || cs.name == "ch" {
+	if cs.name == "" {
 		cs.name = name
 	}
 	return k, cs
+}
+
+// Name is inserted after the declaration of a done-channel so that reports can call it by its variable name.
+func Name(ch any, name string) {
+	s := S
+	k := key(ch)
+	if k == 0 {
+		return
+	}
+	cs := s.chans[k]
+	if cs == nil {
+		cs = &chanState{}
+		s.chans[k] = cs
+		s.keepAlive = append(s.keepAlive, ch)
+	}
+	cs.name = name
 }
 
 // Recv is inserted before a plain `<-ch` statement.
